@@ -124,19 +124,18 @@ Qed.
 Lemma do_entry_outputs d f a o w x :
   do_entry fs cwd rootdir d f a = Ok (o, w) -> In x o ->
   o_file x = file_path cwd (filedir cwd rootdir d) f /\
-  exists incs, extract_incs (tl a) = Ok incs /\ o_incs x = map (inc_path cwd (filedir cwd rootdir d)) incs.
+  o_incs x = map (inc_path cwd (filedir cwd rootdir d)) (extract_incs (tl a)).
 Proof.
   unfold do_entry. destruct (negb (is_supported f a)); [intro H; inversion H; subst; intros []|].
   destruct (negb (os_path_exists _ _ _)); [intro H; inversion H; subst; intros []|].
-  destruct (extract_incs (tl a)) as [incs|]; [|discriminate].
-  intro H. inversion H; subst. intros [<-|[]]. split; [reflexivity|]. exists incs. split; reflexivity.
+  intro H. inversion H; subst. intros [<-|[]]. split; reflexivity.
 Qed.
 
 Lemma loop_outputs l o w x :
   loop fs cwd rootdir l = Ok (o, w) -> In x o ->
   exists d f a, In (d, f, a) l /\
     o_file x = file_path cwd (filedir cwd rootdir d) f /\
-    exists incs, extract_incs (tl a) = Ok incs /\ o_incs x = map (inc_path cwd (filedir cwd rootdir d)) incs.
+    o_incs x = map (inc_path cwd (filedir cwd rootdir d)) (extract_incs (tl a)).
 Proof.
   revert o w. induction l as [|[[d f] a] l IH]; intros o w H I; cbn in H.
   - inversion H; subst. destruct I.
@@ -152,8 +151,7 @@ Lemma only_named_files es o w x :
   load_database fs cwd rootdir es = Ok (o, w) -> In x o ->
   exists e f a, In e es /\ e_file e = Some f /\ e_argv e = Some a /\
     o_file x = file_path cwd (filedir cwd rootdir (e_dir e)) f /\
-    exists incs, extract_incs (tl a) = Ok incs /\
-      o_incs x = map (inc_path cwd (filedir cwd rootdir (e_dir e))) incs.
+    o_incs x = map (inc_path cwd (filedir cwd rootdir (e_dir e))) (extract_incs (tl a)).
 Proof.
   unfold load_database.
   destruct (validated es) as [v|] eqn:V; [|discriminate].
